@@ -5527,6 +5527,11 @@ class Arc(Curve):
             sweep_limit = tau / 12.0
             arc_required = int(ceil(abs(self.sweep) / sweep_limit))
         if arc_required == 0:
+            if self.sweep == 0 and self.start != self.end:
+                # A zero radius is the straight line between the endpoints.
+                yield QuadraticBezier(
+                    self.start, Point.towards(self.start, self.end, 0.5), self.end
+                )
             return
         t_slice = self.sweep / float(arc_required)
 
@@ -5562,6 +5567,14 @@ class Arc(Curve):
             sweep_limit = tau / 12.0
             arc_required = int(ceil(abs(self.sweep) / sweep_limit))
         if arc_required == 0:
+            if self.sweep == 0 and self.start != self.end:
+                # A zero radius is the straight line between the endpoints.
+                yield CubicBezier(
+                    self.start,
+                    Point.towards(self.start, self.end, 1 / 3.0),
+                    Point.towards(self.start, self.end, 2 / 3.0),
+                    self.end,
+                )
             return
         t_slice = self.sweep / float(arc_required)
 
